@@ -2075,6 +2075,10 @@ class CatchExceptionDataset(Dataset):
             warn=False
     ):
         self.input_dataset = input_dataset
+        if isinstance(exceptions, list):
+            # documented as "one exception or a list of exceptions", but an
+            # except clause only takes a class or a tuple of classes
+            exceptions = tuple(exceptions)
         self.exceptions = exceptions
         self.warn = warn
 
@@ -2176,6 +2180,10 @@ class PrefetchDataset(Dataset):
         self.num_workers = num_workers
         self.buffer_size = buffer_size
         self.backend = backend
+        if isinstance(catch_filter_exception, list):
+            # "a specific type (or a list of types)": an except clause needs
+            # a tuple
+            catch_filter_exception = tuple(catch_filter_exception)
         self.catch_filter_exception = catch_filter_exception
 
     def copy(self, freeze=False):
